@@ -41,6 +41,7 @@ NS = {
     "xsd": XS,
 }
 PFX = {v: k for k, v in NS.items()}
+PFX.update({"http://purl.org/dc/elements/1.1/": "dc", "http://purl.org/dc/terms/": "dcterms", MC: "mc"})
 PLAIN = etree.XMLParser(resolve_entities=False, no_network=True, huge_tree=True)
 
 _workdir = None
@@ -183,6 +184,20 @@ def _add_type_elements_complex_only(root, tns):
             e.set("type", ("%s:%s" % (pfx, name)) if pfx else name)
 
 
+def _order_only(root, tns):
+    """Skeleton with every particle optional: only *order* and choice/max cardinality remain, so a
+    parent that is still missing required children (mid-construction) is not an error."""
+    _skeletonise(root, tns)
+    for el in root.iter():
+        if not isinstance(el.tag, str):
+            continue
+        par = el.getparent()
+        if par is None:
+            continue
+        if etree.QName(el).localname in ("element", "sequence", "choice", "group", "any") and etree.QName(par).localname not in ("schema", "group"):
+            el.set("minOccurs", "0")
+
+
 _sets = {}
 
 
@@ -192,6 +207,8 @@ def schema_set(kind):
             _sets[kind] = SchemaSet("real", _add_type_elements)
         elif kind == "skeleton":
             _sets[kind] = SchemaSet("skeleton", _skeletonise)
+        elif kind == "order":
+            _sets[kind] = SchemaSet("order", _order_only)
         else:
             raise KeyError(kind)
     return _sets[kind]
@@ -252,11 +269,33 @@ def _norm_msg(m):
     return _msg_ns.sub(lambda mo: PFX.get(mo.group(0)[1:-1], "?") + ":", m)
 
 
+def _where(root, err):
+    """'grandparent/parent/element' (canonical prefixes) of the node an error is about, or ''."""
+    try:
+        nsm = {}
+        for el in root.iter():
+            if isinstance(el.tag, str):
+                for k, v in el.nsmap.items():
+                    if k:
+                        nsm.setdefault(k, v)
+        nodes = root.getroottree().xpath(err.path, namespaces=nsm)
+        if not nodes:
+            return ""
+        node = nodes[0]
+        chain = []
+        while node is not None and len(chain) < 3:
+            chain.append(pfx_tag(node.tag))
+            node = node.getparent()
+        return "/".join(reversed(chain))
+    except Exception:
+        return ""
+
+
 def validate_root(root, schema):
-    """-> Counter of normalised libxml2 messages (empty = valid)."""
+    """-> Counter of 'where | normalised libxml2 message' strings (empty = valid)."""
     if schema.validate(root):
         return Counter()
-    return Counter(_norm_msg(e.message) for e in schema.error_log)
+    return Counter("%s | %s" % (_where(root, e), _norm_msg(e.message)) for e in schema.error_log)
 
 
 def validate_part(blob_or_root):
@@ -319,10 +358,11 @@ def fragment_errors(el, type_qname):
     return validate_root(cp, sch)
 
 
-def skeleton_errors(parent, type_qname, child_tags=None):
-    """Order/cardinality/choice of parent's children against complex type `type_qname`."""
+def skeleton_errors(parent, type_qname, child_tags=None, kind="skeleton"):
+    """Order/cardinality/choice of parent's children against complex type `type_qname`.
+    kind="order": order and maximum cardinality only (missing required children tolerated)."""
     ns, local = type_qname[1:].split("}")
-    sch = schema_set("skeleton").schema_for_ns(ns)
+    sch = schema_set(kind).schema_for_ns(ns)
     if sch is None:
         raise LookupError("no skeleton schema for " + ns)
     root = etree.Element(q(ns, "__" + local))
